@@ -86,14 +86,15 @@ type roundEnd struct {
 }
 
 type recCtx struct {
-	idx      int
-	rec      reconciler.Reconciler[*RObj]
-	target   map[uint64]int
-	attempts []*attempt
-	last     map[uint64]*attempt // last completed attempt per key
-	errored  map[uint64]bool     // the table showed status Error written for the last failed attempt
-	rounds   []roundEnd
-	prunes   int
+	idx         int
+	rec         reconciler.Reconciler[*RObj]
+	target      map[uint64]int
+	attempts    []*attempt
+	last        map[uint64]*attempt // last completed attempt per key
+	errored     map[uint64]bool     // the table showed status Error written for the last failed attempt
+	lastDeleted map[uint64]*attempt // the last successful Delete per object
+	rounds      []roundEnd
+	prunes      int
 }
 
 type world struct {
@@ -364,7 +365,7 @@ func (w *world) setup(t *simcore.Task) {
 		cell.Invoke(func(params reconciler.Params) {
 			for i := 0; i < w.nRecs; i++ {
 				i := i
-				rc := &recCtx{idx: i, target: map[uint64]int{}, last: map[uint64]*attempt{}, errored: map[uint64]bool{}}
+				rc := &recCtx{idx: i, target: map[uint64]int{}, last: map[uint64]*attempt{}, errored: map[uint64]bool{}, lastDeleted: map[uint64]*attempt{}}
 				ops := &opsSeam{w: w, rc: rc}
 				var bops reconciler.BatchOperations[*RObj]
 				if w.batch {
@@ -724,6 +725,10 @@ func (o *opsSeam) begin(obj *RObj, rev uint64, del bool) *attempt {
 		a.origRev = last.origRev
 	}
 	o.rc.attempts = append(o.rc.attempts, a)
+	if d := o.rc.lastDeleted[obj.ID]; !del && d != nil && rev < d.rev {
+		// the reconciler already carried out the deletion of a later revision: this re-creates the object
+		w.violate("C15", "recreates-deleted", "reconciler %d called Update for object %d (val=%d, revision %d) after it had deleted the object at revision %d: a deleted object is re-created from a version older than its deletion", o.rc.idx, obj.ID, obj.Val, rev, d.rev)
+	}
 	if !del && !a.retry && a.kind != "Pending" && a.kind != "Refreshing" {
 		w.violate("C15", "update-of-settled-object", "reconciler %d called Update for object %d (val=%d) whose status is %s and which is not being retried", o.rc.idx, obj.ID, obj.Val, a.kind)
 	}
@@ -781,6 +786,7 @@ func (o *opsSeam) finish(a *attempt) error {
 	}
 	if a.del {
 		delete(o.rc.target, a.id)
+		o.rc.lastDeleted[a.id] = a
 	} else {
 		o.rc.target[a.id] = a.val
 	}
